@@ -363,6 +363,7 @@ type popRun struct {
 	turnover int
 	failed   bool
 	hash     []uint64
+	knownGeneless bool // scenario keeps single-point crossover on a random population (known finding)
 	shape    *c09Shape // set when the run is a C09 preparation-phase shape
 	keepKeys bool     // C17: keep the textual population keys for diffing
 	keys     []string
@@ -618,7 +619,11 @@ func (r *popRun) partition(pop *genetics.Population, pre *preEpoch) string {
 func (r *popRun) afterEpoch(pre *preEpoch, pop *genetics.Population, err error, epoch int) {
 	if err != nil {
 		if r.oracles&oPop != 0 {
-			r.violate("C02", "epoch-error", "NextEpoch returned an error: "+err.Error(), epoch)
+			clause := "epoch-error"
+			if r.knownGeneless && isGenelessSymptom(err.Error()) {
+				clause = "epoch-error@random-population-single-point-geneless-child"
+			}
+			r.violate("C02", clause, "NextEpoch returned an error: "+err.Error(), epoch)
 		}
 		r.failed = true
 		return
@@ -1052,7 +1057,7 @@ func (r *popRun) construct() (*genetics.Population, error) {
 	switch r.sc.Seed {
 	case "read":
 		return buildByReading(r.opts)
-	case "rand":
+	case "rand", "randsp":
 		return genetics.NewPopulationRandom(3, 1, 2, false, 0.5, r.opts)
 	case "randrec":
 		return genetics.NewPopulationRandom(3, 2, 3, true, 0.5, r.opts)
@@ -1068,6 +1073,9 @@ func (r *popRun) construct() (*genetics.Population, error) {
 func runEpochBody(c *Ctx, sc EpochScenario, oracles oracleSet, x *Exec, cnt map[string]int64) *popRun {
 	row := cfgRows[sc.Cfg]
 	r := &popRun{c: c, sc: sc, row: row, opts: row.Options(), oracles: oracles, x: x, cnt: cnt}
+	if sc.Seed == "randsp" {
+		r.knownGeneless = true
+	}
 	if sc.Seed == "rand" || sc.Seed == "randrec" {
 		// Random populations have no common gene prefix; single-point crossover of such
 		// parents can yield a gene-less child (known finding, decided at operator level by
@@ -1087,7 +1095,7 @@ func runEpochBody(c *Ctx, sc EpochScenario, oracles oracleSet, x *Exec, cnt map[
 		r.violate("C02", "construct-error", "population constructor failed: "+err.Error(), 0)
 		return r
 	}
-	if sc.Seed == "rand" || sc.Seed == "randrec" {
+	if sc.Seed == "rand" || sc.Seed == "randrec" || sc.Seed == "randsp" {
 		for _, o := range pop.Organisms {
 			if len(o.Genotype.Genes) == 0 {
 				// a gene-less random genome is not a well-formed start genome; outside the property's premise
@@ -1196,4 +1204,14 @@ func sortedKeys(m map[string]int64) []string {
 	}
 	sort.Strings(ks)
 	return ks
+}
+
+// isGenelessSymptom recognises the failures that follow from a gene-less genome.
+func isGenelessSymptom(msg string) bool {
+	for _, k := range []string{"without GENES", "has no genes", "has no Genes", "no genes to", "invalid argument to Intn"} {
+		if strings.Contains(msg, k) {
+			return true
+		}
+	}
+	return false
 }
